@@ -20,6 +20,7 @@ from ..ref import calref
 from . import c18
 
 ID = "C08"
+AMBIENT = {"ws": 6}     # this module varies the other setting itself
 US = 1_000_000
 TOKENS = ["YYYY", "YY", "Y", "Q", "Qo", "MMMM", "MMM", "MM", "M", "Mo", "DDDD", "DDD", "DD", "D", "Do", "dddd", "ddd",
           "dd", "d", "E", "HH", "H", "hh", "h", "mm", "m", "ss", "s", "S", "SS", "SSS", "SSSS", "SSSSS", "SSSSSS", "A",
